@@ -2,7 +2,7 @@
 CHECKS["C02"] = (
     "other",
     "static analysis: set comparison of numpy.ndarray's byte-changing entry points against TrackedArray's overrides; CFG dominators for flag-before-delegate; structural checks of container hashes",
-    "Decides the structural clause of C02 for every program at once: no ndarray entry point that rewrites the receiver's bytes reaches numpy without the dirty flag being raised first; finalize/hash ordering; container hashes fold in every member. Does not decide hash values; routes that bypass the object's methods are a listed known finding.",
+    "Decides the structural clause of C02 for every program at once: no ndarray entry point that rewrites the receiver's bytes reaches numpy without the dirty flag being raised first; finalize/hash ordering; container hashes fold in every member. Does not decide hash values; routes that bypass the object's methods are a listed known finding. Values stored into a DataStore are never untracked aliases of a caller's array (asanyarray or copy, not asarray / view(ndarray)); descriptor properties (flat, real, imag, strides) raise the flag in their setters.",
     "Trusted: the frozen table of which ndarray methods mutate (measured on numpy 2.x, DESIGN C02), Python's attribute lookup, networkx dominators.",
     "DESIGN.md#c02",
 )
@@ -16,7 +16,7 @@ NA["C16"] = "containment, convexity, minimality and rigidity are numerical state
 CHECKS["C06"] = (
     "other",
     "static analysis: interval abstract interpretation of the bit-packing block (per admitted column count), dtype-overflow tracking, call-graph funnel check",
-    "Decides, for every integer input admitted by the range guard read from the source and every packed column count, that hashable_rows is injective (fields disjoint, no intermediate overflow, top bit <= 63), that the fallback views exact row bytes, and that unique_rows/group_rows compare rows only through it. Value semantics of group/blocks/merge_runs/group_min/boolean_rows and float quantisation are not decided.",
+    "Decides, for every integer input admitted by the range guard read from the source and every packed column count, that hashable_rows is injective (fields disjoint, no intermediate overflow, top bit <= 63), that the fallback views exact row bytes, and that unique_rows/group_rows compare rows only through it. Value semantics of group/blocks/merge_runs/group_min/boolean_rows and float quantisation are not decided. Functions with a `digits` parameter read their raw argument only to convert or measure it (R7); group() compares integer neighbours exactly, differences only for floats (R8).",
     "Trusted: transfer functions of the interval evaluator (+, -, *, <<, astype, floor/ceil), numpy 2 rule that an out-of-range python int operand raises; XOR/OR of disjoint bit fields is injective.",
     "DESIGN.md#c06",
 )
@@ -25,7 +25,7 @@ NA.pop("C06", None)
 CHECKS["C05"] = (
     "other",
     "static analysis: table extraction of the face->edge layout from its single producer; canonical-form (reaching-definition inlined, callee-resolved) structural rules for every consumer and counting formula; finite evaluation of winding-test column selections; no-shortcut rule over every return of the topological queries",
-    "Decides for all face arrays the contract every edge-based topological query relies on: three winding-ordered directed edges per face, contiguous, face index repeated in step; consumers regroup with the same width and take edges and edge->face index from one producer call (sorted within the pair before grouping); adjacency and watertightness are groups of exactly two equal sorted edges; the winding tests compare head with tail of the twin edge; euler_number is V - E(unique) + F; split is connected components of face adjacency over every face; and no query returns an answer that bypasses its counting computation except under an emptiness test. The combinatorial equalities produced by grouping / csgraph and the angle-defect sum are not decided.",
+    "Decides for all face arrays the contract every edge-based topological query relies on: three winding-ordered directed edges per face, contiguous, face index repeated in step; consumers regroup with the same width and take edges and edge->face index from one producer call (sorted within the pair before grouping); adjacency and watertightness are groups of exactly two equal sorted edges; the winding tests compare head with tail of the twin edge; euler_number is V - E(unique) + F; split is connected components of face adjacency over every face; and no query returns an answer that bypasses its counting computation except under an emptiness test. The combinatorial equalities produced by grouping / csgraph and the angle-defect sum are not decided. graph.neighbors collects neighbours in sets.",
     "Trusted: numpy reshape/tile/repeat semantics as modelled; canonicalisation in sa/provenance.py; the consumer and query lists were enumerated by reading the repository and are frozen in the checker.",
     "DESIGN.md#c05",
 )
@@ -33,7 +33,7 @@ NA.pop("C05", None)
 CHECKS["C11"] = (
     "other",
     "static analysis: exhaustive finite-domain (27 sign vectors) abstract evaluation of the case-table ASTs of mesh_plane.triangle_cases and slice_faces_plane; handler preconditions read from handler bodies",
-    "Decides, for every mesh and plane at once, that the sign-pattern case analysis is a partition consistent with the handlers it dispatches to: codes injective and in range, masks disjoint, each mask selects exactly the patterns its handler's indexing assumes, one on-edge pattern only, slice inside/cut/outside classification and quad/triangle split consistent. Geometry of the produced segments, closedness, area/volume additivity and capping are not decided.",
+    "Decides, for every mesh and plane at once, that the sign-pattern case analysis is a partition consistent with the handlers it dispatches to: codes injective and in range, masks disjoint, each mask selects exactly the patterns its handler's indexing assumes, one on-edge pattern only, slice inside/cut/outside classification and quad/triangle split consistent. Geometry of the produced segments, closedness, area/volume additivity and capping are not decided. Once slice_mesh_plane re-indexes the vertices it re-indexes the faces on every path (R11); lines_to_path hands every segment on (R12).",
     "Trusted: the row-wise interpreter's transfer functions (sort, shift-add, boolean key table, sums, logical_and); enumeration of {-1,0,1}^3 is complete for the abstract domain because classification depends on signs only.",
     "DESIGN.md#c11",
 )
@@ -42,7 +42,7 @@ NA.pop("C11", None)
 CHECKS["C03"] = (
     "proof",
     "static analysis: algebraic abstract interpretation (AST -> sympy polynomials over a symbolic tetrahedron) and polynomial normal-form identities against exact simplex integrals",
-    "Proves, for every closed consistently wound triangle surface, every density, centre-of-mass override and frame, that triangles.mass_properties / cross / area, inertia.transform_inertia and Trimesh.moment_inertia_frame compute the exact integrals: ten moment identities on a symbolic tetrahedron, antisymmetry + cyclic invariance per triangle (so interior faces of any decomposition cancel), assembly of centre of mass and inertia, parallel-axis and rotation law from raw second moments, constant-tolerance degenerate guard, and the Trimesh forwarders. Floating-point rounding is outside the claim.",
+    "Proves, for every closed consistently wound triangle surface, every density, centre-of-mass override and frame, that triangles.mass_properties / cross / area, inertia.transform_inertia and Trimesh.moment_inertia_frame compute the exact integrals: ten moment identities on a symbolic tetrahedron, antisymmetry + cyclic invariance per triangle (so interior faces of any decomposition cancel), assembly of centre of mass and inertia, parallel-axis and rotation law from raw second moments, constant-tolerance degenerate guard, and the Trimesh forwarders. Floating-point rounding is outside the claim. The moment polynomials are evaluated on a float64 conversion of the input (O9).",
     "Trusted: sympy expand/Poly/together; the E3 transfer functions in sa/alg.py; the Dirichlet simplex formula; the chain-decomposition argument in DESIGN.md C03. Assumes generic position for the |volume| < tol.zero branch.",
     "DESIGN.md#c03",
 )
@@ -59,7 +59,7 @@ NA.pop("C19", None)
 CHECKS["C01"] = (
     "other",
     "static analysis: interprocedural read/write effect summaries over access paths (property getters inlined through the MRO) + path-sensitive simulation of Cache surgery on statement CFGs; dominator checks of the verify protocol",
-    "Decides history independence of the mesh cache structurally: every cache_decorator producer reads hashed data only; in every function that keeps memo entries across a data change (exclude sets, cache locks, id_set, dict surgery) each surviving entry is re-assigned by that function or independent of what was written (size-only reads survive count-preserving writes); nothing is read from the memo under a lock after data it depends on was written; cache accessors verify before use; normals are transported only under the rotation and conformality guards; companion keys stay together; ray/proximity structures are keyed on the mesh hash. Numerical correctness of transported values and histories that change arrays through routes C02 lists as findings are not decided.",
+    "Decides history independence of the mesh cache structurally: every cache_decorator producer reads hashed data only; in every function that keeps memo entries across a data change (exclude sets, cache locks, id_set, dict surgery) each surviving entry is re-assigned by that function or independent of what was written (size-only reads survive count-preserving writes); nothing is read from the memo under a lock after data it depends on was written; cache accessors verify before use; normals are transported only under the rotation and conformality guards; companion keys stay together; ray/proximity structures are keyed on the mesh hash. Numerical correctness of transported values and histories that change arrays through routes C02 lists as findings are not decided. Also: a value stored as normals / into a memo is not derived from a local array changed in place afterwards (R10); memo values carried across a data write happen only at reviewed salvage sites (R11); normals assigned through the validating setters follow the data write they belong to (R12); callee-internal stale reads under a caller's lock are reported.",
     "Trusted: the E1 effect model (flow-insensitive aliasing inside a function, role-based receiver typing, frozen tables of mutating / fresh / aliasing external calls), CFG construction, the frozen invariance table; known findings in known_findings.json.",
     "DESIGN.md#c01",
 )
@@ -68,7 +68,7 @@ NA.pop("C01", None)
 CHECKS["C09"] = (
     "other",
     "static analysis: effect analysis (direct stores, stores through local aliases and loop targets, reaching definitions) locates every writer of forest state; CFG dominators / post-dominators decide hash-reset, memo-clear and coupling rules",
-    "Decides for all histories the representation invariants SceneGraph.get relies on: every write of EnforcedForest.parents/edge_data/node_data (from inside or outside the class) is covered by a hash reset on every path; topology changes clear the path memo; re-parenting and node removal keep parents and edge_data coupled; the writer set is closed; the transform memo is keyed on the forest hash, stores read-only matrices, is never handed to a copy unverified, and updates are skipped only under an absolute tolerance. The matrix product itself and kwargs_to_matrix numerics are not decided (rotation builders: C19).",
+    "Decides for all histories the representation invariants SceneGraph.get relies on: every write of EnforcedForest.parents/edge_data/node_data (from inside or outside the class) is covered by a hash reset on every path; topology changes clear the path memo; re-parenting and node removal keep parents and edge_data coupled; the writer set is closed; the transform memo is keyed on the forest hash, stores read-only matrices, is never handed to a copy unverified, and updates are skipped only under an absolute tolerance. The matrix product itself and kwargs_to_matrix numerics are not decided (rotation builders: C19). The matrix stored on an edge is the forest's own array (kwargs_to_matrix never returns a view of its argument) (R8).",
     "Trusted: E1 aliasing model and receiver typing conventions; frozen tables of classified external writers and forest replacers; exceptions between a write and a later reset are not modelled.",
     "DESIGN.md#c09",
 )
@@ -95,7 +95,7 @@ NA.pop("C10", None)
 CHECKS["C17"] = (
     "other",
     "static analysis: ownership classification of every value stored into a copy (constructor arguments, field assignments) with recursive verification of nested copy() methods and of what constructors do with their arguments; table checks of required state and primitive parameters",
-    "Decides for every copy / __copy__ / __deepcopy__ in the repository that nothing stored into the new object is a bare reference into the original or a shallow copy of a container with mutable members; that geometry or parameters, visuals and metadata (scenes: geometry, graph, camera) reach the copy; that primitive copies receive every default parameter; and that memo entries are handed to a copy only at the reviewed sites after verification. That later edits leave the other object's computed values unchanged follows from this plus C01 and is not separately observed.",
+    "Decides for every copy / __copy__ / __deepcopy__ in the repository that nothing stored into the new object is a bare reference into the original or a shallow copy of a container with mutable members; that geometry or parameters, visuals and metadata (scenes: geometry, graph, camera) reach the copy; that primitive copies receive every default parameter; and that memo entries are handed to a copy only at the reviewed sites after verification. That later edits leave the other object's computed values unchanged follows from this plus C01 and is not separately observed. Constructor calls with **mapping arguments count as stores; a copy is not built by replaying mutators over fields already copied (R4).",
     "Trusted: naming tables for container / array / scalar attributes (listed in the checker); `.copy()` on an expression of unknown type is taken as an array or value copy; known finding: include_cache=True shares non-array cached objects.",
     "DESIGN.md#c17",
 )
@@ -104,7 +104,7 @@ NA.pop("C17", None)
 CHECKS["C15"] = (
     "other",
     "static analysis: table agreement between each primitive's defaults, its constructor forwarding and the parameters its _create_mesh reads (effect analysis through PrimitiveAttributes into the shared DataStore); footprints of analytic overrides; sign rule on the scale factor; memoisation-leak rule",
-    "Decides the clause 'a primitive's mesh always reflects its current parameters' for every parameter edit sequence: parameters live in the hashed store, every one is forwarded by the constructor and read by the lazy mesh builder, the lazy getters use the verifying memo API and cannot be assigned, analytic overrides read parameters only, apply_transform writes parameters only with a factor that cannot be negative, and no module-level memoised helper hands the same array to several meshes. Watertightness, winding and analytic measures of the creation functions are not decided.",
+    "Decides the clause 'a primitive's mesh always reflects its current parameters' for every parameter edit sequence: parameters live in the hashed store, every one is forwarded by the constructor and read by the lazy mesh builder, the lazy getters use the verifying memo API and cannot be assigned, analytic overrides read parameters only, apply_transform writes parameters only with a factor that cannot be negative, and no module-level memoised helper hands the same array to several meshes. Watertightness, winding and analytic measures of the creation functions are not decided. Array parameters are read through a subclass-preserving conversion so in-place edits dirty the hash (R7); earcut rings follow one convention (R8).",
     "Trusted: E1 effect model; the reading of PrimitiveAttributes.__getattr__/__setattr__; known finding: Capsule ignores `sections`.",
     "DESIGN.md#c15",
 )
@@ -113,7 +113,7 @@ NA.pop("C15", None)
 CHECKS["C07"] = (
     "other",
     "static analysis: structural / CFG-order checks of the two re-indexing funnels and the visuals' update methods, closed-writer-set query over every assignment to faces / vertices of an existing mesh, normal-form check of the merge key, CFG check of stacking offsets",
-    "Decides necessary structural conditions of C07 for all masks and meshes: update_faces / update_vertices slice every per-element store (data, normals, attributes, visuals) with the same mask in the order the cache requires; the visuals slice their stored colours / uv and drop derived colour memos; only classified functions re-assign faces or vertices of an existing mesh; merge keys are raw attributes times positive constants rounded once; stacking offsets count the vertices of every preceding group. Triangle positions, order preservation, split/concatenate multiset equality and merge tolerance are not decided.",
+    "Decides necessary structural conditions of C07 for all masks and meshes: update_faces / update_vertices slice every per-element store (data, normals, attributes, visuals) with the same mask in the order the cache requires; the visuals slice their stored colours / uv and drop derived colour memos; only classified functions re-assign faces or vertices of an existing mesh; merge keys are raw attributes times positive constants rounded once; stacking offsets count the vertices of every preceding group. Triangle positions, order preservation, split/concatenate multiset equality and merge tolerance are not decided. material.pack stores per-mesh UV blocks by mesh index and stacks them in mesh order (R6).",
     "Trusted: the frozen tables COUNT_CHANGERS / SAME_COUNT (reasons in the checker); several sub-rules match the funnels' statements textually after ast normalisation - an edit that rewrites them is reported as a violation of the funnel contract.",
     "DESIGN.md#c07",
 )
@@ -122,7 +122,7 @@ NA.pop("C07", None)
 CHECKS["C08"] = (
     "other",
     "static analysis: interprocedural write-effect summaries rooted at the exported object for every exporter entry point; constant-table extraction and comparison of exporter/loader registries and PLY / glTF / DXF type tables; def-use check of index agreement between cooperating glTF writer sites",
-    "Decides 'exporting never modifies the geometry of the object being exported' for every format and option (no write effect rooted at the exported object reaches any exporter), and table-level necessary conditions of round-tripping: every exported type has a loader, writer/reader type tables are mutual inverses and match the glTF componentType codes, STL reader and writer share explicit little-endian record dtypes, glTF node->mesh indices are positions in the emitted list. Element-wise equality of reloaded data is not decided.",
+    "Decides 'exporting never modifies the geometry of the object being exported' for every format and option (no write effect rooted at the exported object reaches any exporter), and table-level necessary conditions of round-tripping: every exported type has a loader, writer/reader type tables are mutual inverses and match the glTF componentType codes, STL reader and writer share explicit little-endian record dtypes, glTF node->mesh indices are positions in the emitted list. Element-wise equality of reloaded data is not decided. Face indices are not narrowed by a count (R6); `.format(*array)` templates are sized by that array (R7); the path `dict` writer / reader tables agree and the reader is wired into the load path (R8; Text entities are a recorded finding).",
     "Trusted: E1 effect model (writes through paths cut at the analysis bound are counted in evidence, not judged); exemptions: ColorVisuals cache->data normalisation, lazily derived camera intrinsics, entity traversal direction flags.",
     "DESIGN.md#c08",
 )
@@ -131,7 +131,7 @@ NA.pop("C08", None)
 CHECKS["C18"] = (
     "other",
     "static analysis: write-effect summaries of the repair functions; structural prefix-append checks; polynomial identity (sympy) for the subdivision child table evaluated against the extracted edge layout; control-structure checks of the per-body inversion repair",
-    "Decides for all meshes: winding / normal repair (fix_winding, fix_inversion, fix_normals, invert) can write faces only - never vertices, visuals or attributes; fill_holes and subdivide append after the originals; each of subdivide's four children is exactly a quarter of its parent with the parent's orientation and they tile it (so area, winding and signed volume are preserved by construction) and Loop subdivision uses the same connectivity; faces are selected by an idempotent mask; the per-body inversion repair is reached for every watertight mesh and flips exactly the negative-volume bodies. That BFS re-winding reaches consistency, hole detection, Euler number, edge-length bounds and Loop masks are not decided.",
+    "Decides for all meshes: winding / normal repair (fix_winding, fix_inversion, fix_normals, invert) can write faces only - never vertices, visuals or attributes; fill_holes and subdivide append after the originals; each of subdivide's four children is exactly a quarter of its parent with the parent's orientation and they tile it (so area, winding and signed volume are preserved by construction) and Loop subdivision uses the same connectivity; faces are selected by an idempotent mask; the per-body inversion repair is reached for every watertight mesh and flips exactly the negative-volume bodies. That BFS re-winding reaches consistency, hole detection, Euler number, edge-length bounds and Loop masks are not decided. fill_holes gives up early only below three faces (R6).",
     "Trusted: E1 effect model; sympy expand; the edge layout extracted for C05; several R2/R4/R5 sub-rules match statements textually after ast normalisation.",
     "DESIGN.md#c18",
 )
@@ -149,7 +149,7 @@ NA.pop("C04", None)
 CHECKS["C20"] = (
     "other",
     "static analysis: CFG post-dominance with exception edges (close discipline), who-may-open table, terminating-shape rule per while loop with constant propagation of the end-of-stream value through stream loops, EXITS effect summaries over the loader registries, dominance + integer-kind inference for binary header guards, regex syntax-tree star height",
-    "Decides the structural clauses of clean loading for every input: a file opened by _parse_file_args is closed under was_opened on every normal and exceptional path out of load_scene / _load_compressed / load_path, nothing can raise explicitly between the open and the hand-over, every other open / temporary file in loader modules is a with-item; each while loop in the loader modules leaves the loop once its stream is exhausted or makes progress on a finite resource on every path (visited-set discipline for worklists); no registered loader reaches sys.exit / os._exit; the binary STL and PLY bulk reads are dominated by a header-versus-length test computed in Python integers and STL allocations use the validated count; loader regexes have no nested unbounded repetition. Time / memory proportionality in general, third-party parsers and format-inherent expansion (RLE, sparse accessors) are not decided.",
+    "Decides the structural clauses of clean loading for every input: a file opened by _parse_file_args is closed under was_opened on every normal and exceptional path out of load_scene / _load_compressed / load_path, nothing can raise explicitly between the open and the hand-over, every other open / temporary file in loader modules is a with-item; each while loop in the loader modules leaves the loop once its stream is exhausted or makes progress on a finite resource on every path (visited-set discipline for worklists); no registered loader reaches sys.exit / os._exit; the binary STL and PLY bulk reads are dominated by a header-versus-length test computed in Python integers and STL allocations use the validated count; loader regexes have no nested unbounded repetition. Time / memory proportionality in general, third-party parsers and format-inherent expansion (RLE, sparse accessors) are not decided. No for-loop reachable from a loader iterates an unbounded iterator; DXF block definitions are converted without access to other blocks (one level of INSERT expansion).",
     "Trusted: CFG construction with exception edges (inert local bindings cannot raise), the end-of-stream model (read / readline return the empty object, next raises StopIteration), host-interpreter folding of pure str / bytes / list methods, the reviewed who-may-open table, numpy 2 promotion (python int does not widen a fixed-width operand). Unrecognised loop shapes are recorded as undecided.",
     "DESIGN.md#c20",
 )
@@ -158,7 +158,7 @@ NA.pop("C20", None)
 CHECKS["C13"] = (
     "other",
     "static analysis: symbolic evaluation of the run-splitting routines over one run with a symbolic piece count (pattern x count + tail sequence domain, cases r = 0 and r > 0); writer/reader agreement of the binvox header; canonical-form checks of the volume formula and index <-> point maps",
-    "Decides four clauses only: (N1) splitting a run of length q*m + r for a count width with maximum m yields pieces that sum to the run, none above m, one value per piece (rle) / an odd number of pieces (brle), for r = 0 and r > 0; (N2) the binvox header is read back line for line with the arity and type it was written with and both sides use one-byte counts; (V1) volume = filled_count * det(transform[:3,:3]); (V2) indices_to_points is the grid transform, points_to_indices rounds the inverse transform of the same, hash-keyed matrix. That every encoding answers every read like the dense array, and that whole-sequence run-length conversions are lossless, are values of vectorised numpy code and are NOT decided.",
+    "Decides four clauses only: (N1) splitting a run of length q*m + r for a count width with maximum m yields pieces that sum to the run, none above m, one value per piece (rle) / an odd number of pieces (brle), for r = 0 and r > 0; (N2) the binvox header is read back line for line with the arity and type it was written with, both sides use one-byte counts and the binary body reaches frombuffer exactly as read; (N3) sparse_indices / sparse_values are overridden together; (V1) volume = filled_count * det(transform[:3,:3]); (V2) indices_to_points is the grid transform, points_to_indices rounds the inverse transform of the same, hash-keyed matrix. That every encoding answers every read like the dense array, and that whole-sequence run-length conversions are lossless, are values of vectorised numpy code and are NOT decided.",
     "Trusted: np.repeat / np.cumsum / fancy assignment act run by run (one run is modelled); transform_points == M.p (C04-R7 / C19-T7); canonicalisation in sa/provenance.py; exact canonical forms of the one-line formulas (a rewrite is reported, not silently accepted).",
     "DESIGN.md#6-build-report",
 )
